@@ -705,6 +705,45 @@ func checkC20(w *World, r *Report) {
 	} else {
 		check("endpoint.auth", eats, authAlts)
 	}
+	// C20.6: a closed object that requires a property it does not declare accepts nothing
+	ri6 := r.Rule("C20.6", 40, "every closed schema object (additionalProperties: false) declares the properties it requires; otherwise the alternative is unsatisfiable and the file cannot express what the loader supports")
+	var walkSchema func(n any, path string)
+	walkSchema = func(n any, path string) {
+		switch x := n.(type) {
+		case map[string]any:
+			if req, ok := x["required"].([]any); ok {
+				if ap, has := x["additionalProperties"]; has && ap == false {
+					if _, hasComb := x["allOf"]; !hasComb {
+						pr, _ := x["properties"].(map[string]any)
+						var missing []string
+						for _, q := range req {
+							if qs, ok := q.(string); ok {
+								if _, ok := pr[qs]; !ok {
+									missing = append(missing, qs)
+								}
+							}
+						}
+						sort.Strings(missing)
+						r.Ob(ri6, "closed-required|"+path, token.NoPos, len(missing) == 0,
+							fmt.Sprintf("schema object %s requires %v but, being closed, does not allow them: no file can satisfy it", path, missing))
+					}
+				}
+			}
+			keys := make([]string, 0, len(x))
+			for k := range x {
+				keys = append(keys, k)
+			}
+			sort.Strings(keys)
+			for _, k := range keys {
+				walkSchema(x[k], path+"/"+k)
+			}
+		case []any:
+			for i, e := range x {
+				walkSchema(e, fmt.Sprintf("%s/%d", path, i))
+			}
+		}
+	}
+	walkSchema(s.root, "#")
 	// cache back ends: cache.Register("<type>", factory) plus the built-in noop type
 	var cacheAlts []sdef
 	if cn, ok := props(s.root)["cache"].(map[string]any); ok {
